@@ -564,6 +564,7 @@ type declObs struct {
 	meth    map[string]MethRec
 	helpers map[string][]string // helper name -> normalised decl texts found
 	dup     []string
+	root    bool // a declaration `type Resolver ...` is present
 }
 
 // projectDecls maps declarations to tokens. Boilerplate the generator owns
@@ -586,6 +587,11 @@ func (c *Conc) projectDecls(fset *token.FileSet, src []byte, decls []ast.Decl, w
 					o.meth[p] = rec
 					continue
 				}
+			}
+		}
+		if gd, ok := d.(*ast.GenDecl); ok && gd.Tok == token.TYPE && len(gd.Specs) > 0 {
+			if ts, ok := gd.Specs[0].(*ast.TypeSpec); ok && ts.Name.Name == "Resolver" {
+				o.root = true
 			}
 		}
 		if n := declHelperName(d); n != "" {
@@ -762,6 +768,9 @@ func (c *Conc) Project() *Obs {
 				wd := c.projectDecls(wfset, wsrc, wf.Decls, false, &o.Notes)
 				for p, m := range wd.meth {
 					o.Warn[rf] = append(o.Warn[rf], WarnTok{K: "m", ID: p, Body: m.Body, Named: m.Named, Uses: m.Uses})
+				}
+				if wd.root {
+					o.Warn[rf] = append(o.Warn[rf], WarnTok{K: "r", ID: "Resolver", Body: "-", Uses: []string{}})
 				}
 				for _, h := range c.helperTokens(wd.helpers, rf, &o.Notes) {
 					o.Warn[rf] = append(o.Warn[rf], WarnTok{K: "h", ID: h, Body: "-", Uses: []string{}})
